@@ -91,9 +91,70 @@ def borrowed_programs(run):
     run.say(f"borrowed programs (C03 scope trees): {len(progs)} compiled, {len(bad)} neither code nor SyntaxError")
 
 
+def _dec06(t):
+    out, i = [], 0
+    while i < len(t):
+        if t[i] == "\\" and i + 1 < len(t):
+            out.append({"n": "\n", "s": " ", "t": "\t", "r": "\r", "\\": "\\"}.get(t[i + 1], t[i + 1]))
+            i += 2
+        else:
+            out.append(t[i])
+            i += 1
+    return "".join(out)
+
+
+TARGET_CONTEXTS = ["{e} = x\n", "{e}, = x\n", "*{e}, = x\n", "[{e}] = x\n", "del {e}\n", "del ({e}, )\n", "for {e} in x: pass\n", "for *{e}, in x: pass\n",
+                   "with a as {e}: pass\n", "with a as (*{e}, c): pass\n", "{e} += 1\n", "[i for {e} in x]\n", "[i for *{e}, in x]\n", "x = y = {e} = z\n",
+                   "def f({e}): pass\n", "lambda {e}: 0\n", "import a as {e}\n", "global {e}\n", "try: pass\nexcept E as {e}: pass\n", "class {e}: pass\n",
+                   "f({e}=1)\n", "{e}\n"]
+
+
+def borrowed_targets(run):
+    """Every expression text of C06's expression grammar generator (gpymodel-C06, `ev` cases: displays, subscripts, slices, calls, starred,
+    comprehensions, lambdas, literals ...) placed in every BINDING position of the statement grammar (assignment / starred / del / for / with /
+    augmented / comprehension targets, parameters, import-as, global, except-as, class name, keyword name): the parser's context setter and the
+    compiler's target handling must answer with a code object or a SyntaxError, never with an internal error."""
+    drv = os.path.join(common.LEAN, ".lake", "build", "bin", "gpymodel-C06")
+    hbin = os.path.join(WORK, "gpyh.bin")
+    if not (os.path.exists(drv) and os.path.exists(hbin)):
+        run.cov["borrowed_targets"] = "skipped: gpymodel-C06 not built"
+        return
+    import subprocess
+    p = subprocess.run([drv, "C06", "quick", str(run.seed)], stdout=subprocess.PIPE, stderr=subprocess.DEVNULL, text=True)
+    exprs, seen = [], set()
+    for l in p.stdout.splitlines():
+        inp = l.split("\t", 1)[0]
+        if not inp.startswith("ev "):
+            continue
+        e = _dec06(inp[3:]).strip()
+        if not e or "\n" in e or len(e) > 40 or e in seen:
+            continue
+        seen.add(e)
+        exprs.append(e)
+    exprs.sort(key=lambda e: (len(e), e))
+    cap = 40000 if getattr(run, "gen_tier", run.tier) == "thorough" else 6000
+    if len(exprs) > cap:   # all the short ones, an even stride through the rest
+        head = exprs[: cap // 2]
+        tail = exprs[cap // 2:]
+        stride = (len(tail) + cap // 2 - 1) // (cap // 2)
+        exprs = head + tail[::stride]
+    progs = [c.format(e=e) for e in exprs for c in TARGET_CONTEXTS]
+    lines = ["one exec " + _enc06(s) for s in progs]
+    out = common.run_impl_sharded(hbin, ["C11"], lines, per_case_timeout=600.0)
+    bad = [(s, (o or "MISSING").split("\t")[0]) for s, o in zip(progs, out) if (o or "MISSING").split("\t")[0] not in ("ok", "SKIPPED")]
+    run.cov["borrowed_targets"] = {"from": "gpymodel-C06 (expression grammar) x %d binding contexts" % len(TARGET_CONTEXTS), "expressions": len(exprs),
+                                   "compiled": len(progs), "not_code_or_syntaxerror": len(bad)}
+    run.cov["evaluations"] = run.cov.get("evaluations", 0) + len(progs)
+    for s, v in sorted(bad, key=lambda t: len(t[0]))[:5]:
+        run.violation({"kind": "input", "input": "one exec " + _enc06(s), "impl": v, "model": "-", "spec": "ok",
+                       "note": "an expression of C06's generator in a binding position: compile must yield a code object or a SyntaxError-family exception"})
+    run.say(f"borrowed targets (C06 expressions x binding contexts): {len(progs)} compiled, {len(bad)} neither code nor SyntaxError")
+
+
 def extra(run):
     """distribution of the generated cases by tag"""
     borrowed_programs(run)
+    borrowed_targets(run)
     dist = collections.Counter()
     texts = 0
     try:
